@@ -248,6 +248,10 @@ func exprString(e ast.Expr) string {
 		return exprString(x.Type) + "{" + strings.Join(el, ",") + "}"
 	case *ast.KeyValueExpr:
 		return exprString(x.Key) + ":" + exprString(x.Value)
+	case *ast.MapType:
+		return "map[" + exprString(x.Key) + "]" + exprString(x.Value)
+	case *ast.InterfaceType:
+		return "interface{}"
 	}
 	return fmt.Sprintf("<%T>", e)
 }
